@@ -354,6 +354,11 @@ func c16Gen(g *simcore.Tape, thorough bool) *c16Scenario {
 	if thorough {
 		nc = g.Range(1, 9)
 	}
+	// a run with a backend outage has room for calls before, during and after it
+	outage := g.Chance(25)
+	if outage && nc < 4 {
+		nc = 4
+	}
 	// tables: the first one always routes service 0 somewhere so that most runs proxy something
 	first := c16GenTable(g, nb, ns)
 	if len(first.Routes) == 0 {
@@ -433,7 +438,7 @@ func c16Gen(g *simcore.Tape, thorough bool) *c16Scenario {
 	if g.Chance(20) {
 		sc.ResetCall = g.Intn(nc)
 	}
-	if g.Chance(25) {
+	if outage {
 		// a backend the first table routes to has an outage: it begins once AfterDone calls have completed (calls
 		// before), lasts until Calls further calls have completed (calls during) plus an interval of simulated
 		// time, and the remaining calls run after it
@@ -444,7 +449,7 @@ func c16Gen(g *simcore.Tape, thorough bool) *c16Scenario {
 			}
 		}
 		o := &c16Outage{Backend: cands[g.Intn(len(cands))]}
-		o.AfterDone = g.Intn(nc)
+		o.AfterDone = g.Intn(nc - 2)
 		o.Calls = g.Range(0, 3)
 		o.Duration = simcore.Pick(g, []time.Duration{time.Second, 50 * time.Millisecond, 4 * time.Second, 12 * time.Second, 30 * time.Second})
 		o.Grace = simcore.Pick(g, []time.Duration{0, 3 * time.Second, 15 * time.Second, time.Minute})
@@ -956,7 +961,7 @@ func (e *c16Env) events() []simcore.Event {
 			add("op:fault:outage-begin", 2, e.beginOutage)
 		case e.outage == 1 && e.doneCalls >= e.outageMark+o.Calls && len(e.d.Sim.Enabled()) == 0:
 			// like every event that lets time pass: only while no task stands at a statement of fabio code
-			add("op:fault:outage-end", 2, e.endOutage)
+			add("op:fault:outage-end", 4, e.endOutage)
 		}
 	}
 	// time passes only while no task is at a statement of fabio code: a statement takes no simulated time, so a
